@@ -44,6 +44,11 @@ chk("C16",
     TRUST + "Not decided: equality of flags with balance deltas; fixed-price dust bids; that the clearing price itself is right (C03).",
     "writer/provenance analysis of published fields + effect automaton over abstract paths + finite-ordering evaluation of filter predicates", "DESIGN.md section 4 C16")
 
+chk("C03",
+    "Narrow structural necessary conditions of the clearing-price rule: (MONO-SEARCH) every sort.Search in the settlement tree has a predicate that, abstractly evaluated under the ordering 'accumulated demand <= supply', returns only true, and under 'demand > supply' (on paths that compare) only false — i.e. it is the monotone 'capped demand fits', which binary search requires; (SEARCH-DIR) the search index maps to ascending prices (index reversal over a list whose sort comparator is descending); (CAP-MIN) each quantity added to a matched amount is MinInt(request, allowance[bidder]) with the allowance map seeded from MaxBidAmount per bidder and decremented by exactly that quantity; (SUPPLY-GUARD) the accumulation is unreachable under 'total+quantity > supply' and the guarded quantity is the accumulated SSA value.",
+    TRUST + "Not decided: that the matching arithmetic equals the stated demand function for every order book, ties, allocation amounts (numeric/history clauses).",
+    "finite-ordering abstract evaluation of the search predicate + provenance/SSA matching of cap and supply guards", "DESIGN.md section 4 C03")
+
 PENDING = {}  # property -> reason (kept current as checks are added)
 ALL = ["C%02d" % i for i in range(1, 21)]
 for p in ALL:
